@@ -62,7 +62,11 @@ func caseGen() *rapid.Generator[Case] {
 		if gen.Rarely(t, "long-key", 150) {
 			return gen.S(gen.BoundaryString(keyTokens).Draw(t, "longkey"))
 		}
-		return gen.S(gen.StringOf(keyTokens, min, 2).Draw(t, "key"))
+		k := gen.StringOf(keyTokens, min, 2).Draw(t, "key")
+		if gen.Rarely(t, "mutable-key", 8) {
+			return gen.Item{K: "if", M: gen.MString, P: true, S: gen.Str(k)} // a header whose text can change later (mutate + Update through Headers())
+		}
+		return gen.S(k)
 	})
 	opts := gen.ScriptOpts{
 		AllowProps: true, AllowRowErr: true, Item: itemGen(),
